@@ -30,6 +30,42 @@ def engine_hash():
     return h.hexdigest()[:16]
 
 
+ENGINE_MODULES = ('model', 'fsm', 'interp', 'lin', 'frontend')
+
+
+def anchor_guard(prog, rule_modules):
+    """The rules and the environment model name fields of the library's structures (the state anchors
+    of the properties).  anchors.json lists the fields each structure had when the rules were written;
+    if one of them is gone and the code that decides this property mentions it, there is no verdict
+    (a renamed field is neither a pass nor a violation)."""
+    import re
+    base = json.load(open(os.path.join(os.path.dirname(os.path.abspath(__file__)), 'anchors.json')))
+    d = os.path.dirname(os.path.abspath(__file__))
+    srcs = {}
+    for mod in tuple(ENGINE_MODULES) + tuple(rule_modules):
+        fp = os.path.join(d, mod + '.py')
+        if os.path.exists(fp):
+            srcs[mod] = open(fp).read()
+    for struct, fields in base['structs'].items():
+        rec = prog.records.get(struct)
+        present = set(f[0] for f in rec['fields']) if rec else set()
+        for f in fields:
+            if f in present:
+                continue
+            pat = re.compile(r'(?<![A-Za-z0-9_])%s(?![A-Za-z0-9_])' % re.escape(f))
+            users = [m for m, src in srcs.items() if pat.search(src)]
+            if users:
+                raise AnalysisBroken('anchor vanished: field %s of struct %s no longer exists (named in catsa/%s.py)' % (f, struct, users[0]))
+    for enum, consts in base['enums'].items():
+        for c in consts:
+            if c in prog.enums:
+                continue
+            pat = re.compile(r'(?<![A-Za-z0-9_])%s(?![A-Za-z0-9_])' % re.escape(c))
+            users = [m for m, src in srcs.items() if pat.search(src)]
+            if users:
+                raise AnalysisBroken('anchor vanished: enumerator %s no longer exists (named in catsa/%s.py)' % (c, users[0]))
+
+
 class Model:
     def __init__(self, defines=(), ndebug=True):
         self.defines = tuple(defines)
@@ -38,6 +74,8 @@ class Model:
         t = time.time()
         self.prog = load_program(defines=defines, ndebug=ndebug)
         self.timing['frontend_s'] = round(time.time() - t, 2)
+        if getattr(Model, 'guard_modules', None) is not None:
+            anchor_guard(self.prog, Model.guard_modules)
         self.ms = Machines(self.prog)
         self.cmd = None
         self.evt = None
